@@ -21,7 +21,8 @@ fn ref_signable(info_hash: &[u8; 20], t: u64) -> [u8; 28] {
 
 //@ ob: C02.O2
 //@ tier: quick
-//@ cap: 1200
+//@ cap: 2400
+//@ mem: 40
 //@ desc: SignedAnnounce::from_dht_response(info_hash, k, t, sig) = Ok iff the oracle said valid for exactly (k, info_hash || t as 8 big-endian bytes, sig); key, timestamp and signature are copied; the wall clock plays no role (any timestamp, any clock)
 //@ bounds: k = a concrete valid key; info_hash 20 symbolic bytes; t full u64; now full u64; sig 64 symbolic bytes; symbolic verdict; unwind 130
 //@ stubs: <VerifyingKey as Verifier<Signature>>::verify -> oracle; signed_announce::system_time -> symbolic u64 microseconds
